@@ -46,6 +46,8 @@ def summarize(prop, fixed, gen):
             cells[f"{c[0]}|{c[1]}|{'+'.join(map(str, c[2]))}|{'+'.join(map(str, c[3]))}"] += 1
             sig.append((c[0], c[1], tuple(c[2]), tuple(map(str, c[3]))))
         steps_total += len(prog["steps"])
+        if r.get("timeout"):
+            known["(dropped: program exceeded the time limit)"] += 1
         if r.get("nontrivial"):
             key = (tuple(sig), json.dumps(prog["setup"], sort_keys=True))
             if key not in distinct:
